@@ -42,6 +42,9 @@ CHECKS = {
  'C14': dict(cat=MC, technique='TLA+ model of the collective identities, numpy class rule, range/mean marginal and overlap-proportional re-binning in exact integers/rationals (spec/collective/Histo.tla); TLC enumerates rows x bin specifications x source/target binnings; every state evaluated through load_collective / rebin_histogram / combine_histogram',
    text='"Each cycle in exactly one class", "range histogram = marginal", "re-binning conserves the total / is the identity" and the from/to-range/mean-scale-shift identities are exact combinatorial statements on integer data; TLC proves them on the specification for every configuration of the bounded instance and each configuration is an implementation test (several collective layouts, bin forms, class orders, 2-D target level orders).',
    note='integer loads and edges; open finding C14-cycles-ignored; fixed defect C14-single-interval', ref='5 C14'),
+ 'C16': dict(cat=MC, technique='TLA+ transcription of Hooke (1D, plane stress, plane strain, 3D) and Ramberg-Osgood with n = 1/m in exact rationals (spec/materials); TLC proves inverses / embeddings / oddness / Masing on the lattice; each lattice state evaluated through the real classes',
+   text='For rational E, nu, stresses and n = 1/m the laws are rational functions, so TLC decides invertibility, the plane/3D embeddings, oddness, monotonicity and the Masing relations exactly on the specification and every lattice state is an implementation test (closed forms at 1e-11, Newton inverses at the documented solver tolerance, scalar and array forms, independence of array neighbours).',
+   note='true_strain (logarithm) has no lattice: numeric check only; Newton inverse only claimed for strains <= 100 %', ref='5 C16'),
 }
 PENDING = 'check not built yet in this round (planned, see DESIGN.md section 5)'
 NA = {
